@@ -211,7 +211,17 @@ func tableSequence(o *Out, r *rand.Rand, seqNo, nOps int) {
 	tr := &tabTransport{self: self, answer: map[enode.ID]pingAnswer{}, pinged: make(chan enode.ID, 64)}
 	db, _ := enode.OpenDB("")
 	clock := new(mclock.Simulated)
-	tab, err := portalwire.VerifNewTable(tr, db, clock, 3*time.Second, r.Int63())
+	// every fifth sequence starts INSIDE the table's initial seeding phase (the production default keeps it open until the
+	// first refresh has finished): nodes that contact us are not added yet, everything else is as ever; the phase is ended
+	// after a third of the operations
+	preInit := seqNo%5 == 2
+	var tab *portalwire.Table
+	var err error
+	if preInit {
+		tab, err = portalwire.VerifNewTableForLoop(tr, db, clock, 3*time.Second, r.Int63())
+	} else {
+		tab, err = portalwire.VerifNewTable(tr, db, clock, 3*time.Second, r.Int63())
+	}
 	if err != nil {
 		panic(err)
 	}
@@ -222,7 +232,7 @@ func tableSequence(o *Out, r *rand.Rand, seqNo, nOps int) {
 		subnets = []string{"34.1.7"} // crowd one subnet: the table-wide limit binds
 	}
 	ts := &tabState{tab: tab, idIdx: map[enode.ID]int{}, subnets: []string{"34.1.7", "34.1.8", "91.200.3"}}
-	o.Case(fmt.Sprintf("tabinit self=%x subnets=%s", self.ID().Bytes(), strings.Join(ts.subnets, ",")), "ok")
+	o.Case(fmt.Sprintf("tabinit self=%x subnets=%s initdone=%d", self.ID().Bytes(), strings.Join(ts.subnets, ","), b2i(!preInit)), "ok")
 	nIds := 90
 	if seqNo%3 == 1 {
 		nIds = 34 // small pool: many repeats, few full buckets
@@ -328,6 +338,12 @@ func tableSequence(o *Out, r *rand.Rand, seqNo, nOps int) {
 	var pend []pending
 	now := time.Duration(0)
 	for op := 0; op < nOps; op++ {
+		if preInit && op == nOps/3 {
+			tab.VerifFinishInit()
+			preInit = false
+			snap, _ := ts.snapshot()
+			o.Case("initdone", snap)
+		}
 		_, before := ts.snapshot()
 		c := r.Intn(100)
 		panicked := false
